@@ -274,6 +274,20 @@ func genC05Typed(rt *rapid.T) *C05Typed {
 		}
 		return vc.leafS(rt, k, false, false)
 	}
+	if rapid.IntRange(0, 9).Draw(rt, "svfmt") == 0 {
+		s.Shape = "svfmt"
+		n := rapid.IntRange(1, 5).Draw(rt, "nsv")
+		oc := &opConfig{ioSide: true, maxTok: 3}
+		for i := 0; i < n; i++ {
+			s.Script = append(s.Script, genOpOfKind(rt, oc, pick(rt, "svk", []string{"SafeString", "SafeInt", "SafeRune", "SafeByte", "SafeBytes",
+				"UnsafeString", "UnsafeRune", "UnsafeByte", "UnsafeBytes", "Write", "WriteString", "WriteByte", "WriteRune"})))
+		}
+		s.Dir = (&fmtConfig{noStar: true, noW: true, noTp: true, noHugeNumbers: true}).genDirective(rt)
+		if string(s.Dir.Verb) == "%" {
+			s.Dir.Verb = B("v")
+		}
+		return s
+	}
 	k0 := pick(rt, "k0", c05TypedKinds)
 	if rapid.IntRange(0, 7).Draw(rt, "rvro") == 0 {
 		s.Shape = "rvro"
